@@ -9,6 +9,7 @@ import (
 	"strings"
 	"syscall"
 	"time"
+	"unsafe"
 
 	"github.com/mithrandie/csvq/lib/action"
 	"github.com/mithrandie/csvq/lib/option"
@@ -94,7 +95,7 @@ func (k *Kernel) procMain(p *Proc) {
 	session.SetStdout(stdout)
 	session.SetStderr(stderr)
 	if spec.HasStdin {
-		_ = session.SetStdin(&faultReader{data: []byte(spec.Stdin), chunk: spec.StdinChunk, failAt: spec.StdinFailAt, eofAt: spec.StdinEOFAt, k: k})
+		_ = session.SetStdin(&faultReader{data: spec.StdinBytes(), chunk: spec.StdinChunk, failAt: spec.StdinFailAt, eofAt: spec.StdinEOFAt, k: k})
 		session.CanReadStdin = true
 	} else {
 		_ = session.SetStdin(nil)
@@ -183,6 +184,7 @@ func (k *Kernel) procMain(p *Proc) {
 		res.ExitCode = 1
 		if ae, ok := runErr.(query.Error); ok {
 			res.ExitCode = ae.Code()
+			res.IsQueryError = true
 		}
 		var fe *query.FatalError
 		if errors.As(runErr, &fe) || strings.Contains(res.ErrText, "Fatal Error") {
@@ -233,6 +235,9 @@ func (k *Kernel) shellLoop(ctx context.Context, proc *query.Processor, spec *Pro
 			if flow == query.Exit {
 				return nil
 			}
+		}
+		if u := unevenViews(proc); u != "" {
+			out("@UNEVEN %d %s\n", i, u)
 		}
 		if after := astString(stmts); after != before {
 			out("@ASTCHANGED %d\n  before: %s\n  after:  %s\n", i, before, after)
@@ -297,4 +302,33 @@ func astWalk(v reflect.Value, b *strings.Builder, depth int) {
 	case reflect.Bool:
 		fmt.Fprintf(b, "%v", v.Bool())
 	}
+}
+
+// unevenViews reports cached tables (files and stdin) holding a record whose
+// number of fields differs from the header's.
+func unevenViews(proc *query.Processor) string {
+	var bad []string
+	check := func(key, val interface{}) bool {
+		v, ok := val.(*query.View)
+		if !ok || v == nil {
+			return true
+		}
+		for i, rec := range v.RecordSet {
+			if len(rec) != v.Header.Len() {
+				bad = append(bad, fmt.Sprintf("%v: record %d has %d fields, header has %d", key, i, len(rec), v.Header.Len()))
+				break
+			}
+		}
+		return true
+	}
+	proc.Tx.CachedViews.Range(check)
+	// the stdin table lives in an unexported map of the session
+	sv := reflect.ValueOf(proc.Tx.Session).Elem().FieldByName("stdinViewMap")
+	if sv.IsValid() {
+		vm := reflect.NewAt(sv.Type(), unsafe.Pointer(sv.UnsafeAddr())).Elem().Interface().(query.ViewMap)
+		if !vm.IsEmpty() {
+			vm.Range(check)
+		}
+	}
+	return strings.Join(bad, "; ")
 }
